@@ -79,12 +79,71 @@ theorem chunkOf_total (tdata : Bytes) : ∃ r, chunkOf tdata = .ok r := by
       split <;> exact ⟨_, rfl⟩
     · split <;> exact ⟨_, rfl⟩
 
+theorem parseHeapTuple_some_len (data : Bytes) (t : HeapTuple) (h : parseHeapTuple data = .ok (some t)) :
+    23 ≤ data.length := by
+  by_cases hl : data.length < 23
+  · unfold parseHeapTuple at h
+    simp [hl, pure, Except.pure] at h
+  · omega
+
+/-- toast.go:toastVisible never faults on a tuple ParseHeapTuple accepted (≥ 23 bytes: t_xmin @0, t_infomask @20) -/
+theorem toastVisible_total (raw : Bytes) (h : 23 ≤ raw.length) : ∃ r, Model.Toast.toastVisible raw = .ok r := by
+  unfold Model.Toast.toastVisible
+  simp (disch := omega) only [uN_ok, ok_bind, pure_eq_ok]
+  split
+  · exact ⟨_, rfl⟩
+  · split <;> exact ⟨_, rfl⟩
+
+theorem toastPageItem_total (data : Bytes) (hd : data.length ≥ 8192) (upper : Nat) (it : ItemID) :
+    ∃ r, toastPageItem data upper it = .ok r := by
+  unfold toastPageItem
+  split
+  · exact ⟨_, rfl⟩
+  · split
+    · exact ⟨_, rfl⟩
+    · rename_i hc
+      have hc' : ¬ (it.offset < upper ∨ it.offset + it.length > 8192) := by simpa using hc
+      rw [slice_ok _ _ _ (by omega) (by omega)]
+      simp only [ok_bind]
+      obtain ⟨r, hr⟩ := parseHeapTuple_total ((data.take (it.offset + it.length)).drop it.offset)
+      rw [hr]
+      simp only [ok_bind]
+      cases r with
+      | none => exact ⟨_, rfl⟩
+      | some t =>
+        obtain ⟨v, hv⟩ := toastVisible_total _ (parseHeapTuple_some_len _ t hr)
+        simp only [hv, ok_bind, pure_eq_ok]
+        exact ⟨_, rfl⟩
+
+theorem toastPageTuples_total (data : Bytes) (hd : data.length ≥ 8192) : ∃ r, toastPageTuples data = .ok r := by
+  unfold toastPageTuples parseHeader
+  simp (disch := omega) only [uN_ok, ok_bind, pure_eq_ok]
+  split
+  · exact ⟨_, rfl⟩
+  · obtain ⟨items, hi⟩ := parseItemsLoop_total data (rd 2 (data.drop 12)) (itemCount (rd 2 (data.drop 12))) 24
+    simp only [parseItems, hi, ok_bind]
+    exact collectM_total _ _ (toastPageItem_total data hd _)
+
+theorem readTOASTTuplesFrom_total (data : Bytes) (n off : Nat) : ∃ r, readTOASTTuplesFrom data n off = .ok r := by
+  induction n generalizing off with
+  | zero => exact ⟨_, rfl⟩
+  | succ n ih =>
+    simp only [readTOASTTuplesFrom]
+    split
+    · rename_i hc
+      rw [slice_ok _ _ _ hc (by omega)]
+      obtain ⟨ts, hts⟩ := toastPageTuples_total ((data.take (off + 8192)).drop off) (by simp; omega)
+      obtain ⟨r, hr⟩ := ih (off + 8192)
+      simp only [ok_bind, hts, hr, pure_eq_ok]
+      exact ⟨_, rfl⟩
+    · exact ⟨_, rfl⟩
+
 theorem readTOASTTable_total (data : Bytes) : ∃ r, readTOASTTable data = .ok r := by
   unfold readTOASTTable
-  obtain ⟨es, hes⟩ := readTuplesFrom_total data true (data.length / 8192 + 1) 0
-  have : readTuples data true = .ok es := hes
+  obtain ⟨ts, hts⟩ := readTOASTTuplesFrom_total data (data.length / 8192 + 1) 0
+  have : readTOASTTuples data = .ok ts := hts
   simp only [this, ok_bind]
-  exact collectM_total _ _ (fun e => chunkOf_total _)
+  exact collectM_total _ _ (fun t => chunkOf_total _)
 
 /-! ### decompressors -/
 
